@@ -171,6 +171,26 @@ Proof.
 Qed.
 Print Assumptions c01_session_single_writer_as_built.
 
+(* ... and for ANY number of sessions at once, each with any number of clients posting input at the same
+   instant (their guard flags are independent; `qs` lists session id, frames of a run, clients, guard
+   schedule): if one run per session would be fine - fresh, pairwise distinct session streams - then whatever
+   the guards accept keeps every stream in order, next to any other well-formed actors, under any schedule *)
+Theorem c01_sessions_single_writer :
+  forall (gk : sguard) (qs : list sess_req) (others : list (list mstep * N)) (sched : list N) (st : state),
+  sg_atomic gk = true ->
+  SInv st -> Forall (fun q => forallb is_sess (sq_ts q) = true) qs -> progs_wf others ->
+  sess_fresh st (one_run_each qs ++ others) -> sess_distinct (one_run_each qs ++ others) ->
+  Valid (s_log (run sched (spawn (sessions_actors gk qs ++ others) st))).
+Proof. exact sessions_single_writer. Qed.
+Print Assumptions c01_sessions_single_writer.
+
+Example c01_sessions_hypotheses_satisfiable :
+  SInv empty_state /\ Forall (fun q => forallb is_sess (sq_ts q) = true) w_qs
+  /\ progs_wf [(create_prog [], 0)]
+  /\ sess_fresh empty_state (one_run_each w_qs ++ [(create_prog [], 0)])
+  /\ sess_distinct (one_run_each w_qs ++ [(create_prog [], 0)]).
+Proof. exact w_qs_hyps. Qed.
+
 (* at most one of the concurrent inputs is accepted, exactly one as soon as one caller takes a step *)
 Theorem c01_session_one_run :
   forall (gk : sguard) (n : nat) (gsched : list nat), sg_atomic gk = true ->
